@@ -64,7 +64,8 @@ theorem ArrAt.instrsAt {a : Array Instr} {P : Prog F} : ∀ {l : List Instr} {pc
 
 theorem layoutRoot_eq (bodies : List (Nat × Expr F)) (r : Root F) (s : LState F) :
     layoutRoot bodies r s =
-      let s1 : LState F := { s with jumps := s.jumps.setIfInBounds r.patch s.instrs.size, done := r :: s.done }
+      let s1 : LState F := { s with jumps := s.jumps.setIfInBounds r.patch s.instrs.size, done := r :: s.done,
+                                     dep := s.pendDep.headD 0, pendDep := s.pendDep.tail }
       let s2 := match rootBody bodies r with
         | some b => emit r.patch r.containing b s1
         | none => s1
@@ -122,7 +123,7 @@ theorem layoutRoots_located : ∀ (fuel : Nat) (s : LState F), Inv s →
       rw [layoutRoot_eq] at hc hlab hnd ⊢
       simp only at hc hlab hnd ⊢
       generalize hs1 : LState.mk s.instrs (s.jumps.setIfInBounds r.patch s.instrs.size) s.consts rest (r :: s.done)
-        = s1 at *
+        s.depths (s.pendDep.headD 0) s.pendDep.tail = s1 at *
       have s1_instrs : s1.instrs = s.instrs := by rw [← hs1]
       have s1_consts : s1.consts = s.consts := by rw [← hs1]
       have s1_jumps : s1.jumps = s.jumps.setIfInBounds r.patch s.instrs.size := by rw [← hs1]
